@@ -320,7 +320,7 @@ def check_fft(ctx, freqs):
             lo = table[k - 1] if k > 0 else 0.0
             f = lo + (table[k] - lo) * f[2]
         elif isinstance(f, list):  # [table index, ulp offset]
-            x = table[f[0] % 128]
+            x = table[f[0] % len(table)]
             for _ in range(abs(f[1])):
                 x = math.nextafter(x, math.inf if f[1] > 0 else -math.inf)
             f = x
@@ -648,13 +648,16 @@ def sub_mutate_each(ctx, shard, n):
 
 
 def sub_fft(ctx, shard, n):
-    f = st.one_of(st.tuples(st.integers(0, 127), st.integers(-2, 2)).map(list), st.floats(min_value=1.0, max_value=14000.0),
+    f = st.one_of(st.tuples(st.integers(0, 128), st.integers(-2, 2)).map(list), st.floats(min_value=1.0, max_value=14000.0),
+                  st.floats(min_value=20000.0, max_value=60000.0), st.sampled_from([1e9, math.inf]),
                   st.floats(min_value=-5.0, max_value=9.0), st.floats(min_value=12000.0, max_value=20000.0),
                   st.floats(min_value=0.0, max_value=1.0).map(lambda u: 8.0 * 2 ** (u * 10.7)))
     # local walks: lookups that wander over a few neighbouring buckets (this is where position memory can go stale)
     walk = st.integers(1, 125).flatmap(lambda n: st.lists(
         st.tuples(st.just("b"), st.integers(n - 1, n + 2), st.floats(min_value=0.001, max_value=1.0)).map(list), min_size=3, max_size=20))
-    ctx.given("fft", check_fft, st.lists(f, min_size=1, max_size=25) | walk | walk, 500 if ctx.quick else 5000)
+    # the top of the table: the last two entries and everything above them (position memory must not walk off the end)
+    top = st.lists(st.tuples(st.integers(126, 128), st.integers(-2, 2)).map(list) | st.floats(min_value=23000.0, max_value=40000.0), min_size=2, max_size=8)
+    ctx.given("fft", check_fft, st.lists(f, min_size=1, max_size=25) | walk | walk | top, 500 if ctx.quick else 5000)
     pair = st.tuples(st.floats(min_value=-10.0, max_value=15000.0) | st.floats(min_value=20.0, max_value=500.0), st.floats(min_value=-1.0, max_value=10.0)).map(list)
     call = st.tuples(st.lists(pair, min_size=0, max_size=6), st.none() | st.sampled_from([100, 128, 60, 0, 129, 127, 101])).map(list)
     ctx.given("find_notes", check_find_notes, st.lists(call, min_size=1, max_size=6), 200 if ctx.quick else 3000)
